@@ -44,8 +44,33 @@ def _binders(p, acc=None):
     return acc
 
 
+BIG = {0: 0, 1: 300, 2: 70000}
+
+
+def _big(i):
+    return int(str(BIG.get(i, i)))     # a fresh int object each time (CPython only shares ints up to 256)
+
+
+def bigify(c):
+    """The same case over variable ids 0 / 300 / 70000: ids beyond one byte and beyond the interpreter's shared small ints"""
+    out = {}
+    for k, v in c.items():
+        if k in ('left', 'right', 'prem', 'conc', 'part', 'b'): out[k] = gens.rename_var_ids(v, _big)
+        elif k in ('delta', 'more'): out[k] = [(i, gens.rename_var_ids(a, _big)) for i, a in v]
+        elif k == 'x': out[k] = _big(v)
+        else: out[k] = v
+    out['big_ids'] = True
+    return out
+
+
 @st.composite
 def cases(draw):
+    c = draw(_cases())
+    return bigify(c) if draw(st.integers(0, 6)) == 0 else c
+
+
+@st.composite
+def _cases(draw):
     pool, _, defs = _pool()
     rule = draw(st.sampled_from(['mp', 'mp', 'gen', 'gen', 'inst']))
     level = draw(st.sampled_from(LEVELS))
@@ -226,6 +251,7 @@ def body(c, stats: Stats):
     if rule == 'gen' and not applicable and ex(c['prem'])[0] == 'i':
         cls.append('gen-var-free-in-consequent')
     nt = (not applicable and not returned) or (applicable and returned)
+    if c.get('big_ids'): cls = cls + ['ids-0/300/70000']
     stats.case((rule, c['level'], repr(case_json(c))), nt, cls,
                {'rule': desc, 'interpreter': c['level'], 'applicable': applicable, 'returned': returned})
     if res[0] == 'badstack':
